@@ -1,3 +1,7 @@
+import GoRedisModel.Generated.Facts
+import GoRedisModel.Model.Glob
+import GoRedisModel.Model.Conn
+import GoRedisModel.Model.Lifecycle
 import GoRedisModel.Model.Exec
 import GoRedisModel.Model.Discipline
 /-! Facts regenerated from /repo's source (Generated/Facts.lean) compared with what the hand-written model
@@ -45,5 +49,17 @@ theorem source_auth_gate : (factHolds "authGateBeforeExecutor" && factHolds "aut
 /-- command and option names are folded byte-wise for a-z only (`upperASCII`, the model's `upper`): no Unicode case
 folding (`strings.ToUpper`, `ToLower`, `EqualFold`, `ToTitle`) anywhere in the framework's non-test sources -/
 theorem source_ascii_case : factHolds "noUnicodeCaseFolding" = true := by decide
+
+/-- the connection loop of the current source is the one `Model/Conn` was written from -/
+theorem source_conn_loop_is_the_modelled_one :
+    connLoopModelled.all (fun e => serverFingerprints.contains (e.1, e.2.1)) = true := by decide
+
+/-- the lifecycle functions of the current source are the ones `Model/Lifecycle` and `Model/LifeSys` were written from -/
+theorem source_lifecycle_is_the_modelled_one :
+    lifecycleModelled.all (fun e => serverFingerprints.contains (e.1, e.2.1)) = true := by decide
+
+/-- the glob translation of the current source is the one `Model/Glob` was written from -/
+theorem source_glob_is_the_modelled_one :
+    globModelled.all (fun e => serverFingerprints.contains (e.1, e.2.1)) = true := by decide
 
 end GoRedis
